@@ -302,6 +302,100 @@ def run_lines(exe, lines, args=(), timeout=600, env=None, cwd=None):
     return rc, out.splitlines(), err
 
 
+
+# ------------------------------------------------------------------ change-aware search budget
+# The quick tier is what runs on every change.  When the library source the property depends on
+# differs (token-wise: comments and white space ignored) from the tree the models were last
+# validated against (src_baseline.json, committed), the quick run uses the thorough tier's search
+# budget for its correspondence / oracle legs (more seeds, bigger scopes, sanitizer legs) - the
+# proofs and translators run identically in both cases and coqchk stays in the thorough tier.
+# This changes how hard the check looks, never what counts as a violation.
+def _norm_source(text, cpp=True):
+    if not cpp:
+        return text
+    out, i, n = [], 0, len(text)
+    while i < n:
+        c = text[i]
+        if text.startswith('//', i):
+            j = text.find('\n', i)
+            i = n if j < 0 else j
+        elif text.startswith('/*', i):
+            j = text.find('*/', i + 2)
+            i = n if j < 0 else j + 2
+            out.append(' ')
+        elif c in '"\'':
+            j = i + 1
+            while j < n and text[j] != c:
+                j += 2 if text[j] == '\\' else 1
+            out.append(text[i:j + 1]); i = j + 1
+        else:
+            out.append(c); i += 1
+    return re.sub(r'\s+', ' ', ''.join(out)).strip()
+
+
+def source_fingerprint(repo=None):
+    repo = repo or REPO
+    fp = {}
+    pats = ['src/qtlogger/**/*.h', 'src/qtlogger/**/*.cpp', 'qtlogger.h', 'tools/gen_qtlogger.h.py']
+    for pat in pats:
+        for f in glob.glob(os.path.join(repo, pat), recursive=True):
+            rel = os.path.relpath(f, repo)
+            try:
+                txt = open(f, encoding='utf-8', errors='replace').read()
+            except OSError:
+                continue
+            fp[rel] = hashlib.sha256(_norm_source(txt, not rel.endswith('.py')).encode('utf-8', 'replace')).hexdigest()[:24]
+    return fp
+
+
+def changed_files():
+    """files whose token text differs from the validated baseline (or that were added/removed)"""
+    try:
+        base = json.load(open(os.path.join(VERIF, 'src_baseline.json')))['files']
+    except Exception:
+        return []
+    cur = source_fingerprint()
+    return sorted(f for f in set(base) | set(cur) if base.get(f) != cur.get(f))
+
+
+# files every property depends on besides its own anchors
+_SHARED = ['src/qtlogger/logmessage.h', 'src/qtlogger/handler.h', 'src/qtlogger/pipeline.cpp', 'src/qtlogger/pipeline.h',
+           'src/qtlogger/utils.cpp', 'src/qtlogger/utils.h', 'src/qtlogger/logger_global.h']
+_EXTRA = {
+    'C02': ['src/qtlogger/simplepipeline.cpp', 'src/qtlogger/sinks/', 'src/qtlogger/formatters/patternformatter.cpp'],
+    'C03': ['src/qtlogger/simplepipeline.cpp'],
+    'C04': ['src/qtlogger/simplepipeline.cpp'],
+    'C11': ['src/qtlogger/sinks/rotatingfilesink.cpp', 'src/qtlogger/configure.cpp', 'src/qtlogger/ownthreadhandler.h'],
+    'C12': ['src/qtlogger/formatters/patternformatter.h', 'src/qtlogger/messagepatterns.h'],
+    'C14': ['src/qtlogger/filters/', 'src/qtlogger/formatters/'],
+    'C16': ['src/qtlogger/filters/', 'src/qtlogger/attrhandlers/', 'src/qtlogger/simplepipeline.cpp'],
+    'C19': ['src/qtlogger/'],
+    'C20': ['src/qtlogger/', 'qtlogger.h', 'tools/gen_qtlogger.h.py'],
+}
+
+
+def relevant_changes(pid, changed):
+    if not changed:
+        return []
+    pref = list(_SHARED) + _EXTRA.get(pid, [])
+    covered = set()
+    try:
+        for l in open(os.path.join(VERIF, 'properties.jsonl')):
+            p = json.loads(l)
+            fs = [f for f in p.get('anchors', {}).get('files', [])]
+            covered.update(fs)
+            if p['id'] == pid:
+                pref += fs
+                for f in fs:          # a .cpp anchor brings its header and vice versa
+                    b, e = os.path.splitext(f)
+                    pref += [b + '.h', b + '.cpp']
+    except Exception:
+        pass
+    rel = [f for f in changed if any(f == q or (q.endswith('/') and f.startswith(q)) for q in pref)]
+    # a change in a file no property names: nobody can tell whom it concerns - everybody looks harder
+    orphan = [f for f in changed if f not in covered and f != 'qtlogger.h' and not any(f.startswith(q) for q in _SHARED)]
+    return sorted(set(rel + orphan))
+
 # ----------------------------------------------------------------------------------- verdicts
 class Check:
     """One check run: collects the legs' results, decides, writes evidence, prints the verdict."""
@@ -311,6 +405,15 @@ class Check:
         self.level = level
         self.t0 = time.time()
         self.tier = os.environ.get('VERIF_TIER', 'quick')
+        self.requested_tier = self.tier
+        self.escalated = []
+        if self.tier == 'quick' and os.environ.get('VERIF_ESCALATE', '1') != '0':
+            try:
+                self.escalated = relevant_changes(pid, changed_files())
+            except Exception:
+                self.escalated = []
+            if self.escalated:
+                self.tier = 'thorough'      # search budget only; see "change-aware search budget" above
         self.seed = int(os.environ.get('VERIF_SEED', '1') or 1)
         self.rng = random.Random(self.seed * 1000003 + int(re.sub(r'\D', '', pid) or 0))
         self.cov = {}
@@ -385,7 +488,9 @@ class Check:
         cov['known_findings_matched'] = [k['id'] for k in self.known_hits]
         cov['falsified_on_implementation'] = [w for w, _ in self.failing][:20]
         cov['broken_obligations_or_correspondence'] = [w for w, _ in self.broken][:20]
-        ev = {'property_id': self.pid, 'tier': self.tier if self.tier in ('quick', 'thorough') else 'quick',
+        if self.escalated:
+            cov['search_budget'] = 'thorough budget in a quick run: source differs from the validated baseline in ' + ', '.join(self.escalated[:8])
+        ev = {'property_id': self.pid, 'tier': self.requested_tier if self.requested_tier in ('quick', 'thorough') else 'quick',
               'seed': self.seed, 'level': self.level, 'coverage': cov, 'assumptions': self.assumptions,
               'wall_s': round(time.time() - self.t0, 2), 'violations': len(self.failing) + (1 if (self.broken and not self.failing) else 0)}
         os.makedirs(EVID, exist_ok=True)
@@ -396,7 +501,7 @@ class Check:
         for l in lines:
             print(l)
         print('%s %s tier=%s seed=%d obligations=%d/%d evaluations=%s wall=%.1fs' % (
-            self.pid, 'OK' if rc == 0 else 'FAIL', self.tier, self.seed, cov['discharged'], cov['obligations'],
+            self.pid, 'OK' if rc == 0 else 'FAIL', self.requested_tier + ('+escalated' if self.escalated else ''), self.seed, cov['discharged'], cov['obligations'],
             cov.get('evaluations', '-'), time.time() - self.t0))
         sys.stdout.flush()
         return rc
